@@ -387,7 +387,7 @@ def replay(ctx, obj):
 
 
 def run(ctx):
-    explore(ctx, ctx.subrng("pure"), ctx.budget(700, 8000))
+    explore(ctx, ctx.subrng("pure"), ctx.budget(1200, 10000))
     if not ctx.violations:
         v = hashseed_sweep(ctx)
         if v:
